@@ -76,6 +76,8 @@ class Ctx:
         A property whose argument leans on a rule owned by another property (C01's
         "this assertion is unreachable because C03.R7 holds") re-checks that rule itself,
         reported as ``<rule>@<owner>``, so that its own command detects the breakage."""
+        if self._import is not None:
+            return  # imports are not transitive: only the borrowing property's own list counts
         prev = (self._import, self._muted, self._cur)
         self._import = (src, only)
         self._muted = True
